@@ -13,7 +13,7 @@ import (
 func init() {
 	register(&propDef{
 		ID:          "C16",
-		Explanation: "Render equality between watch mode and a fresh build is not decided. Decides writer/reader agreement of the development text-file protocol and the coverage of the recompilation key: R1 every literal the generator can collect is a valid interpreted-string body without a raw newline (GEM, all literal emissions) — needed both for the Go file and for the one-literal-per-line text file; R2 (a) the separator constant the command joins the literals with equals the one both readers split with, (b) the emitted literal index is the 1-based position of the literal in the collected list (counter incremented, literal appended and index emitted in the same step) and the readers index [index-1] after an `index > len` rejection, (c) the literal is emitted between double quotes and the readers unquote \"<line>\", (d) writer and reader compute the text-file name with the same function; R3 the recompilation key (HasChanged) compares every generator option that changes emitted Go, the literal count and the expression list element-wise, and covers the kind of sink an expression is emitted into; R4 within one debounce window of the watch loop the `needs recompilation` and `text updated` flags are accumulated (||) over all events, never overwritten by the last one. R5 each `has this output changed` hash is sha256 of the very value that is written under that name; R6 (= C07.R1) every written Go expression is registered with the source map unconditionally — HasChanged compares the registered expression list, so a skipped registration hides a change that needs recompilation. NOT decided: file-system timing of the 100 ms cache, equality of rendered bytes.",
+		Explanation: "Render equality between watch mode and a fresh build is not decided. Decides writer/reader agreement of the development text-file protocol and the coverage of the recompilation key: R1 every literal the generator can collect is a valid interpreted-string body without a raw newline (GEM, all literal emissions) — needed both for the Go file and for the one-literal-per-line text file; R2 (a) the separator constant the command joins the literals with equals the one both readers split with, (b) the emitted literal index is the 1-based position of the literal in the collected list (counter incremented, literal appended and index emitted in the same step) and the readers index [index-1] after an `index > len` rejection, (c) the literal is emitted between double quotes and the readers unquote \"<line>\", (d) writer and reader compute the text-file name with the same function; R3 the recompilation key (HasChanged) compares every generator option that changes emitted Go, the literal count and the expression list element-wise, and covers the kind of sink an expression is emitted into; R4 within one debounce window of the watch loop the `needs recompilation` and `text updated` flags are accumulated (||) over all events, never overwritten by the last one. R5 each `has this output changed` hash is sha256 of the very value that is written under that name; R6 (= C07.R1) every written Go expression is registered with the source map unconditionally — HasChanged compares the registered expression list, so a skipped registration hides a change that needs recompilation. R7 the shared text-file name function maps a …_templ.go name to the template's name before it resolves the path (Abs / EvalSymlinks), so the generator and the running program resolve the same file. NOT decided: file-system timing of the 100 ms cache, equality of rendered bytes.",
 		Assumptions: []string{"strconv.Unquote inverts the generator's escapeQuotes (strconv.Quote without the outer quotes)"},
 		Trusted:     []string{"go/types", "go/parser", "x/tools go/packages", "strconv"},
 		Run:         runC16,
@@ -24,6 +24,7 @@ func runC16(c *Ctx) {
 	c.load(".", "./runtime", "./generator", "./cmd/templ/generatecmd", "./parser/v2")
 	hashedBytesAreWrittenBytes(c, "C16.R5")
 	gMap(c, "C16.R6")
+	textFileNameCanonical(c, "C16.R7")
 	gLit(c, "C16.R1")
 
 	// R2 (a): separators ---------------------------------------------------------------
@@ -694,4 +695,67 @@ func writesGatedByOwnHash(c *Ctx, rule, suffix string) int {
 		}
 	}
 	return n
+}
+
+// textFileNameCanonical: C16.R7 — the generator (which knows the .templ file) and the running program (which knows the
+// _templ.go file it was compiled from) must arrive at the SAME text file. The shared name function therefore maps
+// the generated file's name to the template's name FIRST and resolves the path (absolute path, symbolic links)
+// afterwards: resolving first makes the two callers resolve two different files — for a template that is a symbolic
+// link they end up in different directories, and the program finds no text file. Decided on the CFG of the exported
+// name function: the test for the generated-file suffix dominates every call of filepath.Abs / filepath.EvalSymlinks.
+func textFileNameCanonical(c *Ctx, rule string) {
+	p := c.pkg("runtime")
+	info := p.TypesInfo
+	fd := findFunc(p, "", "GetDevModeTextFileName")
+	if fd == nil {
+		c.viol(rule, "anchor-lost:GetDevModeTextFileName", "", "runtime.GetDevModeTextFileName (exported; called by the generator and by generated code's runtime) not found")
+		return
+	}
+	fc := newFnCFG(fd.Body, info)
+	var suffixTests, rewrites []ast.Node
+	var resolves []*ast.CallExpr
+	ast.Inspect(fd.Body, func(n ast.Node) bool {
+		call, ok := n.(*ast.CallExpr)
+		if !ok {
+			return true
+		}
+		fn := calleeOf(info, call)
+		if fn == nil {
+			return true
+		}
+		switch fullName(fn) {
+		case "strings.HasSuffix", "strings.CutSuffix":
+			if len(call.Args) == 2 {
+				if s, ok := constString(info, call.Args[1]); ok && strings.HasSuffix(s, "_templ.go") {
+					suffixTests = append(suffixTests, call)
+				}
+			}
+		case "strings.TrimSuffix":
+			if len(call.Args) == 2 {
+				if s, ok := constString(info, call.Args[1]); ok && strings.HasSuffix(s, "_templ.go") {
+					rewrites = append(rewrites, call)
+				}
+			}
+		case "path/filepath.Abs", "path/filepath.EvalSymlinks", "os.Readlink":
+			resolves = append(resolves, call)
+		}
+		return true
+	})
+	key := funcKey(p, fd)
+	if len(suffixTests)+len(rewrites) == 0 {
+		c.viol(rule, key+"|maps-generated-name-to-template-name", c.pos(fd.Pos()), "GetDevModeTextFileName no longer maps a …_templ.go name to the template's name: the running program and the generator hash different names and never meet")
+		return
+	}
+	c.ok(rule, key+"|maps-generated-name-to-template-name", c.pos(fd.Pos()), "the _templ.go suffix is mapped to .templ")
+	anchors := append(append([]ast.Node{}, suffixTests...), rewrites...)
+	for i, r := range resolves {
+		dom := false
+		for _, a := range anchors {
+			if fc.dominates(a, r) {
+				dom = true
+			}
+		}
+		c.check(dom, rule, fmt.Sprintf("%s|resolve#%d-after-name-mapping", key, i+1), c.pos(r.Pos()), "the path is resolved after the generated-file name was mapped to the template name",
+			fmt.Sprintf("GetDevModeTextFileName resolves the path (%s) before it maps the …_templ.go name to the template's name: the running program resolves the generated Go file while the generator resolves the template — when the template is a symbolic link (or the two differ in any other way the file system can see) they compute different text file names and development mode renders nothing", types.ExprString(r.Fun)))
+	}
 }
